@@ -26,3 +26,16 @@ fn an_unrelated_argument_must_not_flip_the_meaning() {
     let r = two.try_get_matches_from(["prog", "--te"]);
     assert!(r.is_err(), "three candidates, resolved silently: {:?}", r.map(|m| m.subcommand_name().map(str::to_owned)));
 }
+
+#[test]
+fn an_exact_long_flag_wins_over_an_argument_it_is_a_prefix_of() {
+    // `--test` is exactly the long flag of `sub`, and a prefix of the argument `--tester`
+    let cmd = Command::new("prog")
+        .infer_long_args(true)
+        .infer_subcommands(true)
+        .arg(Arg::new("tester").long("tester").action(ArgAction::SetTrue))
+        .subcommand(Command::new("sub").long_flag("test"));
+    let m = cmd.try_get_matches_from(["prog", "--test"]).unwrap();
+    assert_eq!(m.subcommand_name(), Some("sub"), "exact match wins");
+    assert!(!m.get_flag("tester"));
+}
